@@ -18,8 +18,8 @@ RULE = ("exhaustive enumeration of (kind, N, boundary condition, order, physical
 ASSUMPTIONS = ["reference stencils follow the row layout documented by construction in cuqi.operator "
                "(rows compared up to a per-row sign, since the sign of a difference is not documented)"]
 EXHAUSTIVE = {"quick": True, "thorough": True}
-REQUIRED_COUNTERS = {"quick": {"stencil_rows_checked": 500, "nullspace_checked": 50, "gmrf_rank_logdet_checked": 40, "mrf_density_checked": 100},
-                     "thorough": {"stencil_rows_checked": 3000, "nullspace_checked": 200, "gmrf_rank_logdet_checked": 150, "mrf_density_checked": 400}}
+REQUIRED_COUNTERS = {"quick": {"stencil_rows_checked": 500, "nullspace_checked": 50, "gmrf_rank_logdet_checked": 40, "mrf_density_checked": 100, "gmrf_config_switch_checked": 20},
+                     "thorough": {"stencil_rows_checked": 3000, "nullspace_checked": 200, "gmrf_rank_logdet_checked": 150, "mrf_density_checked": 400, "gmrf_config_switch_checked": 60}}
 
 def _ranges(tier):
     return (range(2, 13), range(2, 6)) if tier == "quick" else (range(2, 41), range(2, 13))
@@ -47,6 +47,12 @@ def cases(tier, seed):
                     # (history); 3: conditioned copies of one object with a callable precision (as Gibbs does)
                     for variant in range(4):
                         out.append({"kind": "gmrf", "N": N, "bc": bc, "order": order, "pd": pd, "variant": variant})
+            # run-time configuration: cuqi.config.MAX_DIM_INV decides between the exact (eigenvalue) log-det and the
+            # documented Cholesky approximation of P + sqrt(eps) I; the switch must follow the *current* setting
+            if N ** pd >= 4:
+                for bc in ("periodic", "neumann"):
+                    for side in ("below", "above"):
+                        out.append({"kind": "gmrf_cfg", "N": N, "bc": bc, "order": 1, "pd": pd, "side": side})
             for bc in ("zero", "periodic", "neumann"):
                 for variant in range(2):
                     out.append({"kind": "lmrf", "N": N, "bc": bc, "pd": pd, "variant": variant})
@@ -143,6 +149,31 @@ def run_case(case, ctx):
         return
 
     geom = cuqi.geometry.Continuous1D(N) if pd == 1 else cuqi.geometry.Image2D((N, N))
+    if kind == "gmrf_cfg":
+        order = case["order"]
+        R = S.diff_op(N, bc, order, pd)
+        Pref = R.T @ R
+        saved = cuqi.config.MAX_DIM_INV
+        try:
+            # 'below': the limit is lowered under the dimension -> documented approximation; 'above': exact
+            cuqi.config.MAX_DIM_INV = (n - 1) if case["side"] == "below" else (n + 1)
+            deltas = (0.9, 4.3)
+            consts = [float(cuqi.distribution.GMRF(np.zeros(n), d, bc_type=bc, order=order, geometry=geom, name="x").logpdf(np.zeros(n))) for d in deltas]
+        finally:
+            cuqi.config.MAX_DIM_INV = saved
+        r_obs = 2 * (consts[1] - consts[0]) / (np.log(deltas[1]) - np.log(deltas[0]))
+        logdet_obs = 2 * consts[0] - r_obs * (np.log(deltas[0]) - np.log(2 * np.pi))
+        exact, r_ref, _ = S.pseudo_logdet_and_rank(Pref)
+        approx = float(np.linalg.slogdet(Pref + np.sqrt(np.finfo(float).eps) * np.eye(n))[1])
+        want = approx if case["side"] == "below" else exact
+        ctx.count("gmrf_config_switch_checked")
+        ctx.note("logdet_obs_exact_approx", [float(logdet_obs), exact, approx])
+        if abs(r_obs - r_ref) > 1e-6 or abs(logdet_obs - want) > 1e-6 * max(1.0, abs(want)) + 1e-6:
+            ctx.violation("gmrf_logdet_ignores_config", {**_cfg(case), "side": case["side"]},
+                          detail=f"N={N}: with cuqi.config.MAX_DIM_INV set {case['side']} the dimension the log-det implied by logpdf is {logdet_obs:.6g} "
+                                 f"(rank {r_obs:.6g}); exact {exact:.6g}, documented approximation {approx:.6g}")
+        ctx.nontrivial()
+        return
     variant = case["variant"]
     shift = np.zeros(n) if variant == 0 else rs.standard_normal(n)
     if kind == "gmrf":
